@@ -1,5 +1,5 @@
 ------------------------------ MODULE RingBufBig ------------------------------
-(* librfn/ringbuf.c as a sequential object over rings of up to 2^32 - 1 bytes *)
+(* librfn/ringbuf.c as a sequential object over rings of up to 2^32 bytes     *)
 (* (property C05: "every buffer length >= 2, every starting position of the  *)
 (* read/write indices").  TLC integers end at 2^31 - 1, so an index is a pair *)
 (* <<hi, lo>> of halves below H (H = 2^16 for the real code; a small H in the *)
@@ -26,7 +26,8 @@ Zero == <<0, 0>>
 Pred(x) == IF x[2] = 0 THEN <<x[1] - 1, H - 1>> ELSE <<x[1], x[2] - 1>>
 (* place the indices anywhere; `held` = how many (unknown) bytes lie between them *)
 Place(l, r0, w0, held) ==
-  /\ IsIdx(l) /\ Less(<<0, 1>>, l) /\ Less(r0, l) /\ Less(w0, l)
+  /\ (IsIdx(l) \/ l = <<H, 0>>) /\ Less(<<0, 1>>, l) /\ Less(r0, l) /\ Less(w0, l)     \* <<H, 0>>: all the indices can address (H^2 bytes)
+  /\ IsIdx(r0) /\ IsIdx(w0)
   /\ len' = l /\ r' = r0 /\ w' = w0 /\ unk' = held /\ known' = <<>> /\ ret' = 0 /\ nops' = 0
 
 Put(b) ==      \* refused iff the ring holds len - 1 unread bytes, i.e. the slot after w is r
@@ -52,5 +53,5 @@ Distance == (Val(w) + Val(len) - Val(r)) % Val(len)
 Counts == Val(unk) + Len(known) = Distance /\ Distance <= Val(len) - 1
 InRing == Less(r, len) /\ Less(w, len)
 Safety == Counts /\ InRing
-McLens == {<<0, 2>>, <<0, 3>>, <<1, 0>>, <<1, 1>>, <<1, 3>>, <<2, 0>>}      \* bounded model with H = 4: lengths 2, 3, 4, 5, 7, 8
+McLens == {<<0, 2>>, <<0, 3>>, <<1, 0>>, <<1, 1>>, <<1, 3>>, <<2, 0>>, <<3, 3>>, <<4, 0>>}      \* bounded model with H = 4: lengths 2, 3, 4, 5, 7, 8, 15, 16 (= H^2)
 =============================================================================
